@@ -348,6 +348,8 @@ type pageVariant struct {
 	name string
 	kind string // col | off
 	mk   func(hr *HistRun, pit *libtime.Time) pager
+	// content: optional monitor on WHAT the listing contains (grouped volumes), "" = fine; independent of the model
+	content func(hr *HistRun, pit *libtime.Time) string
 }
 
 func resQ[O any](b query.Builder, pit *libtime.Time, opts O) common.ResourceQuery[O] {
@@ -384,7 +386,7 @@ func pageVariants() []pageVariant {
 					pit = nil
 				}
 				return mkPager(hr.ctx, hr.ctrl.ListTransactions, col, resQ[any](b, pit, nil), txKey(col))
-			}})
+			}, nil})
 		}
 	}
 	for _, fl := range []flt{{"none", nil, false}, {"type=NEW_TRANSACTION", func() query.Builder { return query.Match("type", "NEW_TRANSACTION") }, false},
@@ -398,7 +400,7 @@ func pageVariants() []pageVariant {
 			return mkPager(hr.ctx, hr.ctrl.ListLogs, "id", resQ[any](b, nil, nil), func(l ledger.Log) (string, string) {
 				return fmt.Sprint(*l.ID), fmt.Sprint(*l.ID)
 			})
-		}})
+		}, nil})
 	}
 	for _, fl := range []flt{{"none", nil, false}, {"address=users:", func() query.Builder { return query.Match("address", "users:") }, false},
 		{"metadata[k1]=v1", func() query.Builder { return query.Match("metadata[k1]", "v1") }, false}, {"pit", nil, true}} {
@@ -412,7 +414,7 @@ func pageVariants() []pageVariant {
 				pit = nil
 			}
 			return mkPager(hr.ctx, hr.ctrl.ListAccounts, "address", resQ[any](b, pit, nil), func(a ledger.Account) (string, string) { return a.Address, "" })
-		}})
+		}, nil})
 	}
 	for g := 0; g <= 3; g++ {
 		g := g
@@ -430,6 +432,42 @@ func pageVariants() []pageVariant {
 				}
 				return mkPager(hr.ctx, hr.ctrl.GetVolumesWithBalances, "account", resQ(b, pit, ledger.GetVolumesOptions{GroupLvl: g}),
 					func(v ledger.VolumesWithBalanceByAssetByAccount) (string, string) { return v.Account + "/" + v.Asset, "" })
+			}, func(hr *HistRun, pit *libtime.Time) string {
+				if g == 0 {
+					return ""
+				}
+				if !fl.pit {
+					pit = nil
+				}
+				// the grouped listing = the ungrouped listing of the same query summed per truncated address
+				read := func(lvl int) (map[pair][2]*big.Int, error) {
+					var b query.Builder
+					if fl.b != nil {
+						b = fl.b()
+					}
+					vs, err := listAll(hr.ctx, hr.ctrl.GetVolumesWithBalances, common.InitialPaginatedQuery[ledger.GetVolumesOptions]{PageSize: 7,
+						Options: resQ(b, pit, ledger.GetVolumesOptions{GroupLvl: lvl})})
+					if err != nil {
+						return nil, err
+					}
+					out := map[pair][2]*big.Int{}
+					for _, v := range vs {
+						out[pair{v.Account, v.Asset}] = [2]*big.Int{v.Input, v.Output}
+					}
+					return out, nil
+				}
+				grouped, err := read(g)
+				if err != nil {
+					return ""
+				}
+				base, err := read(0)
+				if err != nil {
+					return "[grouped-listing] the ungrouped listing of the same query fails: " + err.Error()
+				}
+				if d := diffVols(grouped, groupVols(base, g)); d != "" {
+					return fmt.Sprintf("[grouped-listing] groupBy=%d: %s (expected = the ungrouped listing of the same query summed per first %d address segments)", g, d, g)
+				}
+				return ""
 			}})
 		}
 	}
@@ -646,6 +684,13 @@ func checkVariant(out *Out, hr *HistRun, v pageVariant, pit *libtime.Time, asc b
 	if fullPage.more || hasDup(full) {
 		out.Violation("C21", cs, fmt.Sprintf("[full-listing] the listing %s with page size 10000 reports hasMore=%v / repeats a row: %v", v.name, fullPage.more, full))
 		return
+	}
+	if v.content != nil && asc {
+		out.Stats["grouped_content_checked"]++
+		if msg := v.content(hr, pit); msg != "" {
+			out.Violation("C21", cs, fmt.Sprintf("%s listing %s", msg, v.name))
+			return
+		}
 	}
 	if hasDup(keys) {
 		// sort key not unique (transactions sharing a timestamp): outside the property's hypothesis. Observation only.
